@@ -327,3 +327,332 @@ Proof.
   destruct (Forall_done_cnt _ T) as (_ & zA & zW & zD & zS & zR & zL & zDone).
   unfold inv_common, nA, nW, nD, nS, nR, nL in *. rewrite ?zA, ?zW, ?zD, ?zS, ?zR, ?zL in *. lia.
 Qed.
+
+(* ------------------------------------------------------------------------------------ *)
+(* Item histories: every acquired item is released exactly once, after its shot/discard,
+   by the instance that acquired it, and never touched afterwards. *)
+
+Definition no_holder (l : list inst) (a : nat) : Prop :=
+  forall j y, nth_error l j = Some y -> held_item (pc y) <> Some a.
+Definition only_holder (l : list inst) (a i : nat) : Prop :=
+  forall j y, nth_error l j = Some y -> held_item (pc y) = Some a -> j = i.
+
+(* newest-first shape of the events of item a while instance i, at program point p, holds it *)
+Definition partial_shape (i a : nat) (p : ipc) (l : list event) : Prop :=
+  match p with
+  | Wait _ | Dec _ | Shoot _ => l = [mkEv i EAcq a]
+  | Resp _ => l = [mkEv i EShoot a; mkEv i EAcq a]
+  | Rel _ => l = [mkEv i EAcq a] \/ l = [mkEv i EShoot a; mkEv i EAcq a] \/ l = [mkEv i EDisc a; mkEv i EAcq a]
+  | _ => False
+  end.
+
+Definition complete_shape (a : nat) (l : list event) : Prop :=
+  exists i, l = [mkEv i ERel a; mkEv i EAcq a]
+         \/ l = [mkEv i ERel a; mkEv i EShoot a; mkEv i EAcq a]
+         \/ l = [mkEv i ERel a; mkEv i EDisc a; mkEv i EAcq a].
+
+Definition item_inv (lg : list event) (aq : nat) (l : list inst) (a : nat) : Prop :=
+  (proj a lg = [] /\ aq <= a /\ no_holder l a)
+  \/ (exists i x, nth_error l i = Some x /\ held_item (pc x) = Some a
+                  /\ partial_shape i a (pc x) (proj a lg) /\ a < aq /\ only_holder l a i)
+  \/ (complete_shape a (proj a lg) /\ a < aq /\ no_holder l a).
+
+Lemma nth_mid_eq (l1 : list inst) x l2 : nth_error (l1 ++ x :: l2) (length l1) = Some x.
+Proof. rewrite nth_error_app2 by lia. rewrite Nat.sub_diag. reflexivity. Qed.
+
+Lemma nth_mid_neq (l1 : list inst) x x' l2 j :
+  j <> length l1 -> nth_error (l1 ++ x' :: l2) j = nth_error (l1 ++ x :: l2) j.
+Proof.
+  intros H. destruct (Nat.lt_ge_cases j (length l1)).
+  - rewrite !nth_error_app1 by assumption. reflexivity.
+  - rewrite !nth_error_app2 by assumption.
+    destruct (j - length l1) as [|k] eqn:E; [lia|reflexivity].
+Qed.
+
+Lemma proj_cons a e l : proj a (e :: l) = if ev_item e =? a then e :: proj a l else proj a l.
+Proof. reflexivity. Qed.
+
+Lemma no_holder_frame l1 x x' l2 a :
+  held_item (pc x') <> Some a -> no_holder (l1 ++ x :: l2) a -> no_holder (l1 ++ x' :: l2) a.
+Proof.
+  intros Hx' H j y Hj. destruct (Nat.eq_dec j (length l1)) as [->|Ne].
+  - rewrite nth_mid_eq in Hj. inversion Hj; subst. exact Hx'.
+  - rewrite (nth_mid_neq l1 x x' l2 j Ne) in Hj. eapply H; eauto.
+Qed.
+
+Lemma only_holder_frame l1 x x' l2 a i :
+  held_item (pc x') <> Some a -> only_holder (l1 ++ x :: l2) a i -> only_holder (l1 ++ x' :: l2) a i.
+Proof.
+  intros Hx' H j y Hj Hy. destruct (Nat.eq_dec j (length l1)) as [->|Ne].
+  - rewrite nth_mid_eq in Hj. inversion Hj; subst. contradiction.
+  - rewrite (nth_mid_neq l1 x x' l2 j Ne) in Hj. eapply H; eauto.
+Qed.
+
+(* the stepping instance neither held nor holds item a, and a's events and status are untouched *)
+Lemma item_inv_frame lg lg' aq aq' l1 x x' l2 a :
+  proj a lg' = proj a lg -> (aq <= a -> aq' <= a) -> (a < aq -> a < aq') ->
+  held_item (pc x) <> Some a -> held_item (pc x') <> Some a ->
+  item_inv lg aq (l1 ++ x :: l2) a -> item_inv lg' aq' (l1 ++ x' :: l2) a.
+Proof.
+  intros Hp Hle Hlt Hx Hx' [(E & L & NH)|[(i & y & Hi & Hy & PS & L & OH)|(CS & L & NH)]].
+  - left. rewrite Hp. repeat split; auto. eapply no_holder_frame; eauto.
+  - right; left. exists i, y. rewrite Hp.
+    assert (i <> length l1) by (intros ->; rewrite nth_mid_eq in Hi; inversion Hi; subst; contradiction).
+    repeat split; auto.
+    + rewrite (nth_mid_neq l1 x x' l2 i) by assumption. exact Hi.
+    + eapply only_holder_frame; eauto.
+  - right; right. rewrite Hp. repeat split; auto. eapply no_holder_frame; eauto.
+Qed.
+
+(* the stepping instance keeps holding item a *)
+Lemma item_inv_held lg lg' aq l1 x x' l2 a :
+  held_item (pc x) = Some a -> held_item (pc x') = Some a ->
+  (partial_shape (length l1) a (pc x) (proj a lg) -> partial_shape (length l1) a (pc x') (proj a lg')) ->
+  item_inv lg aq (l1 ++ x :: l2) a -> item_inv lg' aq (l1 ++ x' :: l2) a.
+Proof.
+  intros Hx Hx' Hps [(E & L & NH)|[(i & y & Hi & Hy & PS & L & OH)|(CS & L & NH)]].
+  - exfalso. eapply NH; [apply nth_mid_eq|exact Hx].
+  - assert (length l1 = i) by (eapply OH; [apply nth_mid_eq|exact Hx]). subst i.
+    rewrite nth_mid_eq in Hi. inversion Hi; subst y.
+    right; left. exists (length l1), x'. repeat split; auto.
+    + apply nth_mid_eq.
+    + intros j z Hj Hz. destruct (Nat.eq_dec j (length l1)) as [->|Ne]; [reflexivity|].
+      rewrite (nth_mid_neq l1 x x' l2 j Ne) in Hj. eapply OH; eauto.
+  - exfalso. eapply NH; [apply nth_mid_eq|exact Hx].
+Qed.
+
+(* Acquire hands out the fresh item a = aq *)
+Lemma item_inv_acquire lg aq l1 x x' l2 :
+  held_item (pc x) = None -> pc x' = Wait aq ->
+  item_inv lg aq (l1 ++ x :: l2) aq ->
+  item_inv (mkEv (length l1) EAcq aq :: lg) (S aq) (l1 ++ x' :: l2) aq.
+Proof.
+  intros Hx Hx' [(E & L & NH)|[(i & y & Hi & Hy & PS & L & OH)|(CS & L & NH)]]; try lia.
+  right; left. exists (length l1), x'. rewrite proj_cons; cbn [ev_item]. rewrite Nat.eqb_refl, E, Hx'.
+  repeat split; auto.
+  - apply nth_mid_eq.
+  - intros j z Hj Hz. destruct (Nat.eq_dec j (length l1)) as [->|Ne]; [reflexivity|].
+    rewrite (nth_mid_neq l1 x x' l2 j Ne) in Hj. exfalso. eapply NH; eauto.
+Qed.
+
+(* Release ends the history of item a *)
+Lemma item_inv_release lg aq l1 x x' l2 a :
+  pc x = Rel a -> held_item (pc x') = None ->
+  item_inv lg aq (l1 ++ x :: l2) a ->
+  item_inv (mkEv (length l1) ERel a :: lg) aq (l1 ++ x' :: l2) a.
+Proof.
+  intros Hx Hx' [(E & L & NH)|[(i & y & Hi & Hy & PS & L & OH)|(CS & L & NH)]].
+  - exfalso. eapply NH; [apply nth_mid_eq|rewrite Hx; reflexivity].
+  - assert (length l1 = i) by (eapply OH; [apply nth_mid_eq|rewrite Hx; reflexivity]). subst i.
+    rewrite nth_mid_eq in Hi. inversion Hi; subst y. rewrite Hx in PS. cbn [partial_shape] in PS.
+    right; right. rewrite proj_cons; cbn [ev_item]. rewrite Nat.eqb_refl. repeat split; auto.
+    + exists (length l1). destruct PS as [->|[->| ->]]; auto.
+    + intros j z Hj Hz. destruct (Nat.eq_dec j (length l1)) as [->|Ne].
+      * rewrite nth_mid_eq in Hj. inversion Hj; subst. congruence.
+      * rewrite (nth_mid_neq l1 x x' l2 j Ne) in Hj. apply Ne. eapply OH; eauto.
+  - exfalso. eapply NH; [apply nth_mid_eq|rewrite Hx; reflexivity].
+Qed.
+
+Definition inv_items (s : state) : Prop :=
+  forall a, item_inv (log (sh s)) (acquired (sh s)) (insts s) a.
+
+Lemma inv_items_init c : inv_items (init c).
+Proof.
+  intros a. left. cbn. repeat split; [lia|]. intros j y Hj. destruct j; discriminate.
+Qed.
+
+Lemma held_neq_dec (p : ipc) a : {held_item p = Some a} + {held_item p <> Some a}.
+Proof. destruct (held_item p) as [b|]; [destruct (Nat.eq_dec b a); [left; congruence|right; congruence]|right; discriminate]. Qed.
+
+Lemma proj_cons_neq a e l : ev_item e <> a -> proj a (e :: l) = proj a l.
+Proof. intros H. rewrite proj_cons. destruct (Nat.eqb_spec (ev_item e) a); [contradiction|reflexivity]. Qed.
+
+Ltac frame I :=
+  eapply item_inv_frame; [.. | exact I];
+  [ first [reflexivity | apply proj_cons_neq; cbn; congruence]
+  | try lia; auto | try lia; auto
+  | cbn; try discriminate; try congruence
+  | cbn; try discriminate; try congruence ].
+
+Ltac held I :=
+  eapply item_inv_held; [.. | exact I]; [reflexivity | reflexivity | ].
+
+Lemma inv_items_step c s a s' : inv_items s -> apply_action c a s = Some s' -> inv_items s'.
+Proof.
+  intros I H. destruct a as [i d| |]; cbn [apply_action] in H.
+  - unfold step_inst in H. destruct (nth_error (insts s) i) as [x|] eqn:N; [|discriminate].
+    destruct (local_step c i d (sh s) x) as [[sh' x']|] eqn:LS; [|discriminate].
+    inversion H; subst s'; clear H.
+    destruct (upd_split _ _ _ N) as (l1 & l2 & E & L & U).
+    intros b. specialize (I b). unfold inv_items; cbn [sh insts]. rewrite U. rewrite E in I. clear U N E.
+    destruct s as [s0 l op]; cbn [sh insts] in *. destruct s0 as [tk am aq rl fi di un rq rs lg]; destruct x as [p o]; cbn [pc own log acquired] in *.
+    unfold local_step in LS; cbn [pc ammo stoks own] in LS. subst i.
+    destruct p; cbn in LS.
+    + (* Check *) destruct (left_of _ _ _ =? 0); inversion LS; subst; cbn [log acquired]; frame I.
+    + (* Acq *) destruct am; inversion LS; subst; cbn [log acquired].
+      * frame I.
+      * destruct (Nat.eq_dec b aq) as [->|Ne].
+        -- eapply item_inv_acquire; [.. | exact I]; reflexivity.
+        -- frame I.
+    + (* Wait *)
+      destruct (per_inst c); [destruct o|destruct tk]; inversion LS; subst; cbn [log acquired];
+        (destruct (Nat.eq_dec b a) as [->|Ne]; [held I; cbn [partial_shape pc set_pc]; auto|frame I]).
+    + (* Dec *) destruct (discard_overflow c && d); inversion LS; subst; cbn [log acquired].
+      * destruct (Nat.eq_dec b a) as [->|Ne].
+        -- held I. cbn [partial_shape pc set_pc]. intros HH. rewrite proj_cons; cbn [ev_item]. rewrite Nat.eqb_refl, HH. auto.
+        -- frame I.
+      * destruct (Nat.eq_dec b a) as [->|Ne]; [held I; cbn [partial_shape pc set_pc]; auto|frame I].
+    + (* Shoot *) inversion LS; subst; cbn [log acquired].
+      destruct (Nat.eq_dec b a) as [->|Ne].
+      * held I. cbn [partial_shape pc set_pc]. intros HH. rewrite proj_cons; cbn [ev_item]. rewrite Nat.eqb_refl, HH. auto.
+      * frame I.
+    + (* Resp *) inversion LS; subst; cbn [log acquired].
+      destruct (Nat.eq_dec b a) as [->|Ne]; [held I; cbn [partial_shape pc set_pc]; auto|frame I].
+    + (* Rel *) inversion LS; subst; cbn [log acquired].
+      destruct (Nat.eq_dec b a) as [->|Ne].
+      * eapply item_inv_release; [.. | exact I]; reflexivity.
+      * frame I.
+    + discriminate.
+  - unfold spawn in H. destruct (start_open s); [|discriminate]. inversion H; subst; clear H.
+    intros b. specialize (I b). unfold inv_items; cbn [sh insts].
+    assert (NH : forall a, no_holder (insts s) a -> no_holder (insts s ++ [new_inst c]) a).
+    { intros a0 NH j y Hj. destruct (Nat.lt_ge_cases j (length (insts s))).
+      - rewrite nth_error_app1 in Hj by assumption. eapply NH; eauto.
+      - rewrite nth_error_app2 in Hj by assumption. destruct (j - length (insts s)) as [|k]; cbn in Hj.
+        + inversion Hj; subst. cbn. discriminate.
+        + destruct k; discriminate. }
+    destruct I as [(E & L & N0)|[(i & y & Hi & Hy & PS & L & OH)|(CS & L & N0)]].
+    + left. auto.
+    + right; left. exists i, y. repeat split; auto.
+      * rewrite nth_error_app1; [exact Hi|]. apply nth_error_Some. congruence.
+      * intros j z Hj Hz. destruct (Nat.lt_ge_cases j (length (insts s))).
+        -- rewrite nth_error_app1 in Hj by assumption. eapply OH; eauto.
+        -- rewrite nth_error_app2 in Hj by assumption. destruct (j - length (insts s)) as [|k]; cbn in Hj.
+           ++ inversion Hj; subst. cbn in Hz. discriminate.
+           ++ destruct k; discriminate.
+    + right; right. auto.
+  - inversion H; subst. exact I.
+Qed.
+
+Lemma reach_inv_items c s : reach c s -> inv_items s.
+Proof. induction 1; [apply inv_items_init|eapply inv_items_step; eauto]. Qed.
+
+(* chronological statement *)
+Definition item_history_ok (a : nat) (l : list event) : Prop :=
+  exists i, l = [mkEv i EAcq a; mkEv i ERel a]
+         \/ l = [mkEv i EAcq a; mkEv i EShoot a; mkEv i ERel a]
+         \/ l = [mkEv i EAcq a; mkEv i EDisc a; mkEv i ERel a].
+
+Lemma proj_rev a l : proj a (rev l) = rev (proj a l).
+Proof.
+  unfold proj. induction l as [|e r IH]; [reflexivity|].
+  cbn [rev filter]. rewrite filter_app, IH. cbn [filter]. destruct (ev_item e =? a); cbn; [reflexivity|apply app_nil_r].
+Qed.
+
+Theorem acquire_release c s :
+  reach c s -> terminal s ->
+  acquired (sh s) = released (sh s)
+  /\ (forall a, a < acquired (sh s) -> item_history_ok a (proj a (events s)))
+  /\ (forall a, acquired (sh s) <= a -> proj a (events s) = []).
+Proof.
+  intros R T. split; [apply (acquired_released_count c s R T)|].
+  pose proof (reach_inv_items c s R) as I. destruct T as [_ T].
+  assert (NH : forall a i y, nth_error (insts s) i = Some y -> held_item (pc y) <> Some a).
+  { intros a i y Hi. rewrite Forall_forall in T. rewrite (T y) by (eapply nth_error_In; eauto). cbn. discriminate. }
+  unfold events. split; intros a Ha; rewrite proj_rev.
+  - destruct (I a) as [(E & L & _)|[(i & y & Hi & Hy & _)|((i & CS) & _ & _)]].
+    + lia.
+    + exfalso. eapply NH; eauto.
+    + exists i. destruct CS as [->|[->| ->]]; cbn; auto.
+  - destruct (I a) as [(E & L & _)|[(i & y & Hi & Hy & _)|(_ & L & _)]].
+    + rewrite E. reflexivity.
+    + exfalso. eapply NH; eauto.
+    + lia.
+Qed.
+
+(* the executable checker used on observed logs decides exactly this statement *)
+Lemma item_complete_b_of_ok a l : item_history_ok a l -> item_complete_b l = true.
+Proof.
+  intros [i [->|[->| ->]]]; cbn; unfold is_ev; cbn; rewrite ?Nat.eqb_refl; reflexivity.
+Qed.
+
+Lemma is_ev_true e i k : is_ev e i k = true -> ev_inst e = i /\ ev_kind e = k.
+Proof.
+  unfold is_ev. rewrite andb_true_iff, Nat.eqb_eq. intros [-> Hk]. split; [reflexivity|].
+  destruct (ev_kind e), k; cbn in Hk; congruence.
+Qed.
+
+Lemma proj_items a l e : In e (proj a l) -> ev_item e = a.
+Proof. unfold proj. rewrite filter_In, Nat.eqb_eq. tauto. Qed.
+
+Lemma ev_eta e : e = mkEv (ev_inst e) (ev_kind e) (ev_item e).
+Proof. destruct e; reflexivity. Qed.
+
+Lemma item_complete_b_ok a l : item_complete_b (proj a l) = true -> item_history_ok a (proj a l).
+Proof.
+  pose proof (proj_items a l) as HI. destruct (proj a l) as [|e1 [|e2 [|e3 [|e4 r]]]]; cbn; try discriminate.
+  - rewrite andb_true_iff. intros [H1 H2]. apply is_ev_true in H1, H2. destruct H1 as [_ K1], H2 as [I2 K2].
+    exists (ev_inst e1). left.
+    rewrite (ev_eta e1) at 1. rewrite (ev_eta e2). rewrite K1, K2, I2, !HI by (cbn; auto). reflexivity.
+  - rewrite !andb_true_iff, orb_true_iff. intros [[H1 H2] H3].
+    apply is_ev_true in H1, H3. destruct H1 as [_ K1], H3 as [I3 K3].
+    exists (ev_inst e1). right.
+    destruct H2 as [H2|H2]; apply is_ev_true in H2; destruct H2 as [I2 K2]; [left|right];
+      rewrite (ev_eta e1) at 1; rewrite (ev_eta e2), (ev_eta e3); rewrite K1, K2, K3, I2, I3, !HI by (cbn; auto); reflexivity.
+Qed.
+
+Theorem pairing_b_spec n l :
+  pairing_b n l = true <->
+  (forall a, a < n -> item_history_ok a (proj a l)) /\ (forall a, n <= a -> proj a l = []).
+Proof.
+  unfold pairing_b. rewrite andb_true_iff, !forallb_forall. split.
+  - intros [H1 H2]. split.
+    + intros a Ha. apply item_complete_b_ok. apply H1. apply in_seq. lia.
+    + intros a Ha. destruct (proj a l) as [|e r] eqn:E; [reflexivity|exfalso].
+      assert (In e (proj a l)) by (rewrite E; left; reflexivity).
+      pose proof (proj_items a l e H) as Hi. unfold proj in H. apply filter_In in H. destruct H as [H _].
+      specialize (H2 e H). apply Nat.ltb_lt in H2. lia.
+  - intros [H1 H2]. split.
+    + intros a Ha. apply in_seq in Ha. apply (item_complete_b_of_ok a). apply H1. lia.
+    + intros e He. apply Nat.ltb_lt. destruct (Nat.lt_ge_cases (ev_item e) n) as [|Hge]; [assumption|exfalso].
+      specialize (H2 _ Hge). assert (In e (proj (ev_item e) l)) by (unfold proj; apply filter_In; split; [exact He|apply Nat.eqb_refl]).
+      rewrite H2 in H. destruct H.
+Qed.
+
+Corollary pairing_b_terminal c s :
+  reach c s -> terminal s -> pairing_b (acquired (sh s)) (events s) = true.
+Proof. intros R T. apply pairing_b_spec. apply (acquire_release c s R T). Qed.
+
+(* a log accepted by the replay ends in a reachable state: the theorems apply to it *)
+Lemma hop_reach c i d p q s s' : reach c s -> hop c i d p q s = Some s' -> reach c s'.
+Proof.
+  unfold hop. intros R H. destruct (pc_at s i); [|discriminate]. destruct (ipc_eqb _ _); [|discriminate].
+  destruct (step_inst c i d s) as [s1|] eqn:E; [|discriminate].
+  destruct (pc_at s1 i); [|discriminate]. destruct (ipc_eqb _ _); [|discriminate].
+  inversion H; subst. apply (reach_step c s (AStep i d) s' R). exact E.
+Qed.
+
+Lemma replay_one_reach c e s s' : reach c s -> replay_one c e s = Some s' -> reach c s'.
+Proof.
+  intros R H. destruct e; cbn in H.
+  - destruct (i =? length (insts s)); [|discriminate]. apply (reach_step c s ASpawn s' R). exact H.
+  - eapply hop_reach; eauto.
+  - destruct a; eapply hop_reach; eauto.
+  - destruct (pc_at s i) as [[]|]; try discriminate. eapply hop_reach; eauto.
+  - unfold bind in H. destruct (hop c i false (Dec a) (Shoot a) s) as [s1|] eqn:E; [|discriminate].
+    eapply hop_reach; [eapply hop_reach; [exact R|exact E]|exact H].
+  - destruct (pc_at s i) as [[]|]; try discriminate. eapply hop_reach; eauto.
+  - assert (forall s0, reach c s0 -> hop c i false (Rel a) Check s0 = Some s' -> reach c s') by (intros; eapply hop_reach; eauto).
+    destruct (pc_at s i) as [[]|]; eauto.
+    unfold bind in H. destruct (hop c i false (Resp a) (Rel a) s) as [s1|] eqn:E; [|discriminate].
+    eapply H0; [eapply hop_reach; [exact R|exact E]|exact H].
+  - inversion H; subst. apply (reach_step c s AClose _ R). reflexivity.
+Qed.
+
+Lemma replay_reach c l : forall s k s' k', reach c s -> replay c l s k = (s', k', true) -> reach c s'.
+Proof.
+  induction l as [|e r IH]; cbn [replay]; intros s k s' k' R H.
+  - inversion H; subst; exact R.
+  - destruct (replay_one c e s) as [s1|] eqn:E; [|discriminate].
+    eapply IH; [eapply replay_one_reach; eauto|exact H].
+Qed.
